@@ -1,9 +1,3 @@
-import C05
-def units(tier): return C05.units(tier)
-def instances(tier):
-    out = []
-    for i in C05.instances(tier):
-        if 'pseudo_v4' in i.id or i.id == 'h_c05_sum_range[12]':
-            for fl in ([], ['--sat-solver', 'cadical'], ['--external-sat-solver', 'kissat']):
-                import copy; j = copy.copy(i); j.flags = fl; j.timeout = 200; out.append(j)
-    return out
+from driver import Unit, Inst
+def units(tier): return [Unit('dbg', shim='dbg.cpp', ctors=False)]
+def instances(tier): return [Inst('dbg', f, unwind=12, timeout=100, recursion=4) for f in ('h_dbg_1','h_dbg_2','h_dbg_3')]
